@@ -75,11 +75,20 @@ func vGenEscapeTable(tp *verifsim.Tape) ([][]unicode, map[byte]byte) {
 	used := map[byte]bool{}
 	table := map[byte]byte{}
 	var chars [][]unicode
-	for _, b := range order {
+	// the leader itself may serve as a code (the built-in tables use it for the leader; any one byte may have it:
+	// it is on the wire in front of every code anyway)
+	leaderCodeFor := -1
+	if tp.Bool("tbl.leadercode", 400) {
+		leaderCodeFor = tp.Draw("tbl.leadercodefor", len(order))
+	}
+	for i, b := range order {
 		var c byte
 		for {
 			c = byte(tp.Draw("tbl.code", 256))
-			if !prot[c] && !used[c] && c != '\n' && c != '"' && c != '\\' {
+			if i == leaderCodeFor && !used[0xee] {
+				c = 0xee
+			}
+			if (!prot[c] || c == 0xee) && !used[c] && c != '\n' && c != '"' && c != '\\' {
 				break
 			}
 		}
@@ -116,7 +125,20 @@ func vScenarioC04(rc *runCtx) {
 		size := []int{0, 1, 1023, 1024, 1025, 10239, 10240, 10241, 40000, 131072, 200000}[tp.Draw("c04.size", 11)]
 		data := make([]byte, size)
 		hot := []byte{0xee, 0x7e, 0x0d, 0x10, 0x11, 0x13, 0x18, 0x1b, 0x1d, 0x8d, 0x90, 0x91, 0x93, 0x9d, 0x02}
-		switch tp.Draw("c04.content", 4) {
+		switch tp.Draw("c04.content", 5) {
+		case 4:
+			// well-formed UTF-8 text whose multi-byte characters contain protected bytes (the leader 0xEE opens
+			// the private-use block U+E000-U+EFFF; 0x8D/0x90/0x91/0x93/0x9D occur as continuation bytes) and no
+			// protected ASCII byte at all
+			words := []string{"\ue0b0", "\ue0a0", "\uee00", "\uefff", "Ñ", "Ó", "道", "遍", "遐", "遑", "遝", "中文", "plain ascii words", "\n", " ", "résumé"}
+			var b []byte
+			for len(b) < size {
+				b = append(b, words[tp.Draw("c04.word", len(words))]...)
+			}
+			data = b
+			if tp.Bool("c04.textplain", 700) {
+				cfg.compress = "no"
+			}
 		case 0:
 			for j := range data {
 				data[j] = hot[tp.Draw("c04.hot", len(hot))]
